@@ -9,3 +9,35 @@ Check c06_alloc_fits : forall fuel width mins ws ws',
   shrink_loop fuel width mins ws = Ok ws' ->
   sumN ws' + N.of_nat (length ws') - 1 <= width.
 Print Assumptions c06_alloc_fits.
+
+From H2T Require Import Proofs.TableProof.
+(* The column allocation of a side-by-side table (minimum widths fit): the shrink loop with the
+   fuel the renderer passes terminates without panic (no 0-1, no index error, not out of
+   fuel), every column ends between its minimum and its content size, and the columns plus
+   separators fit the width. *)
+Theorem c06_alloc_total : forall width (col_sizes : list est),
+  col_sizes <> [] ->
+  Forall (fun sz => e_min sz <= e_size sz) col_sizes ->
+  sumN (map e_min col_sizes) + (N.of_nat (length col_sizes) - 1) <= width ->
+  let tot_size := sumN (map e_size col_sizes) in
+  let ws0 := map (col_width_of width tot_size) col_sizes in
+  exists ws_,
+    shrink_loop (S (N.to_nat (sumN ws0))) width (map e_min col_sizes) ws0 = Ok ws_ /\
+    Forall2 (fun sz w => e_min sz <= w <= e_size sz) col_sizes ws_ /\
+    sumN ws_ + N.of_nat (length ws_) - 1 <= width.
+Proof. exact TableProof.table_col_widths_ok. Qed.
+Print Assumptions c06_alloc_total.
+(* a column that needs space (positive minimum width) is never allocated zero width *)
+Theorem c06_text_column_nonzero : forall width mins ws0 ws_,
+  length mins = length ws0 -> ws0 <> [] ->
+  Forall2 (fun m w => m <= w) mins ws0 ->
+  sumN mins + (N.of_nat (length mins) - 1) <= width ->
+  shrink_loop (S (N.to_nat (sumN ws0))) width mins ws0 = Ok ws_ ->
+  forall i m w, nth_error mins i = Some m -> nth_error ws_ i = Some w -> 0 < m -> 0 < w.
+Proof. exact TableProof.c06_text_column_nonzero. Qed.
+Print Assumptions c06_text_column_nonzero.
+Theorem c06_table_width_le : forall fuel width mins ws0 ws_,
+  shrink_loop fuel width mins ws0 = Ok ws_ ->
+  sumN ws_ + (N.of_nat (length (filter (fun w => 0 <? w) ws_)) - 1) <= width.
+Proof. exact TableProof.table_width_le. Qed.
+Print Assumptions c06_table_width_le.
